@@ -103,6 +103,10 @@ type FieldSpec struct {
 	Doc         string
 	Default     ConstantValue
 	Annotations Annotations
+
+	// fillingDefault is true while the default value of this field is
+	// being linked to stand in for the field in a struct constant.
+	fillingDefault bool
 }
 
 // compileField compiles the given Field source into a FieldSpec.
